@@ -231,8 +231,9 @@ fn judge_metrics(case: &Case, offsets: &[usize], evals: &AtomicU64) -> Result<()
                     if !(got_self.abs() as f64 <= 2.0 * EPS32) {
                         return Err(mk("self-distance", format!("cosine d(a,a) = {got_self:e}")));
                     }
-                    if !(-2.0 * EPS32 as f32..=1.0 + 2.0 * EPS32 as f32).contains(&got) {
-                        return Err(mk("cosine-range", format!("cosine distance {got:e} outside [0,1]")));
+                    // the statement gives the closed interval: the implementation clamps the cosine
+                    if !(0.0..=1.0).contains(&got) || got_self < 0.0 {
+                        return Err(mk("cosine-range", format!("cosine distance d(a,b) = {got:e}, d(a,a) = {got_self:e}: outside [0,1]")));
                     }
                     if (uu == 0.0 || vv == 0.0) && got != 0.0 {
                         return Err(mk("cosine-zero-norm", format!("cosine distance with a zero norm is {got:e}")));
